@@ -727,7 +727,30 @@ fn main() {
             }
         }
         Err(e) => problems.push(format!("constants.rs: {e}")),
-    } }
+    }
+        // the declaration is not in a spelling the static reader understands (e.g. the enum and its messages come out of a macro):
+        // the flow then RUNS the code (`/verif/tablegen`: from_u8 + Debug + Display for every byte) and hands the table in
+        let bad = |p: &String| p.starts_with("ErrorMessages") || p.starts_with("no Display message") || p.starts_with("constants.rs");
+        if errors.is_empty() || problems.iter().any(bad) {
+            match std::env::var("ZVT_ERRORS_TSV").ok().and_then(|f| std::fs::read_to_string(f).ok()) {
+                Some(tsv) => {
+                    problems.retain(|p| !bad(p));
+                    errors.clear();
+                    for line in tsv.lines() {
+                        let f: Vec<&str> = line.splitn(3, '\t').collect();
+                        if f.len() == 3 {
+                            errors.push((f[0].parse().unwrap_or(0), f[1].to_string(), f[2].to_string()));
+                        }
+                    }
+                }
+                None => {
+                    if errors.is_empty() {
+                        problems.push("ErrorMessages: the result-code table was not found in constants.rs".into());
+                    }
+                }
+            }
+        }
+    }
 
     // ---- file ids (convert_dir) and client constants
     let mut file_ids: Vec<(String, u64)> = vec![];
